@@ -109,6 +109,9 @@ def check_fixture(ctx, cfg):
     ctx.ob("C16.fixture", "raw_generate", fired == {"C16.Z", "C16.N", "C16.U"}, "rules firing on the positive fixture: %s (required: Z, N and U)" % sorted(fired), cfg=cfg)
 
 
+VEC_ADOPT = ("alloc::vec::Vec::<T>::from_raw_parts", "alloc::vec::Vec::<T, A>::from_raw_parts_in")
+
+
 def check_handover(ctx, cfg):
     """C16.P: into_raw -> from_raw / alloc -> from_raw pairs keep pointer and layout."""
     rule = "C16.P"
@@ -117,13 +120,24 @@ def check_handover(ctx, cfg):
     for b in db.bodies:
         if b["kind"] not in ("Fn", "AssocFn", "Closure"):
             continue
-        if not any(t["term"]["k"] == "call" and t["term"]["f"].get("k") == "fn" and "Box::<T" in t["term"]["f"]["def"] and t["term"]["f"]["def"].endswith("::from_raw") for t in b["mir"]["blocks"]):
+        def adopts(fn):
+            return ("Box::<T" in fn and fn.endswith("::from_raw")) or fn in VEC_ADOPT
+        if not any(t["term"]["k"] == "call" and t["term"]["f"].get("k") == "fn" and adopts(t["term"]["f"]["def"]) for t in b["mir"]["blocks"]):
             continue
         a = ctx.analysis(cfg, b["key"])
-        for i, f in enumerate([c for c in a.calls if c.fn.endswith("::from_raw") and "Box::<T" in c.fn]):
+        for i, f in enumerate([c for c in a.calls if adopts(c.fn)]):
             site = "%s#from_raw#%d" % (b["key"], i)
             p = f.args[0]
             dst = f.targs[0]
+            if f.fn in VEC_ADOPT:
+                # Vec::from_raw_parts(ptr, len, cap): the Vec will free `cap` elements' worth with T's alignment: an array type of that extent
+                cap, ln = a.as_poly(f.args[2]), a.as_poly(f.args[1])
+                if cap is None or ln is None or not prove((">=", cap - ln), a.poly_facts(f.facts)):
+                    ctx.ob(rule, site, REFUTED, "Vec::from_raw_parts(.., len %s, capacity %s): len <= capacity not shown" % (vstr(f.args[1]), vstr(f.args[2])), at=f.at, cfg=cfg)
+                    n += 1
+                    continue
+                p = ("P", p[1], p[2], cap) if p[0] == "P" else p
+                dst = {"k": "slice", "t": dst}
             srcs = [c for c in a.calls if (c.fn.endswith("::into_raw") and "Box::<T" in c.fn) and c.ret[0] == "P" and p[0] == "P" and c.ret[1] == p[1] and a.dominates(c.bb, f.bb)]
             if not srcs:
                 raw = [c for c in a.calls if c.fn in ("alloc::alloc::alloc", "alloc::alloc::alloc_zeroed") and a.dominates(c.bb, f.bb) or (c.fn in ("alloc::alloc::alloc", "alloc::alloc::alloc_zeroed") and a.reaches(c.bb, f.bb))]
